@@ -728,43 +728,45 @@ Qed.
 Lemma lm_step_reach l a : (exists tr, l = L.run (L.new_lim lt le) tr) -> exists tr, L.step l a = L.run (L.new_lim lt le) tr.
 Proof. intros [tr ->]. exists (tr ++ [a]). rewrite <- run_app. reflexivity. Qed.
 
+Ltac simp := cbn [dd rx tk pg bs br lm ob mx live with_dd with_rx with_tk with_pg with_bs with_br with_lm with_ob with_mx rstep ostep].
+
 Lemma cinv_step s e : CInv s -> ev_ok e -> CInv (Model.step c s e).
 Proof.
   intros I He. destruct e; cbn [Model.step ev_ok] in *.
   - (* EIn *)
     destruct (ci_mx s I) as [Hidle _]. destruct (mx_cycle (mx s) mid Hidle) as [H1 H2].
-    constructor; cbn; try apply I; [|split; assumption].
-    apply DP.step_all_bounded; [apply I|cbn; lia].
-  - constructor; cbn; try apply I; [apply pend_owned_step; apply I|apply tok_owned_step; apply I].
-  - constructor; cbn; try apply I; [apply pend_owned_step; apply I|do 2 apply tok_owned_step; apply I].
-  - constructor; cbn; try apply I. apply pend_owned_step; apply I.
-  - constructor; cbn; try apply I. apply pend_owned_step; apply I.
-  - constructor; cbn; try apply I; [apply pend_owned_step; apply I|apply tok_owned_step; apply I].
-  - constructor; cbn; try apply I. apply lm_step_reach. apply I.
-  - constructor; cbn; try apply I. apply lm_step_reach. apply I.
-  - constructor; cbn; try apply I. apply lm_step_reach. apply I.
-  - constructor; cbn; try apply I. destruct (ci_lm s I) as [tr Htr]. destruct (settle_is_run SETTLE_FUEL (lm s)) as [tr2 H2].
+    constructor; simp; try apply I; [|split; assumption].
+    apply DP.step_all_bounded; [apply I|unfold DP.age_ok; cbn [DP.age_of]; lia].
+  - constructor; simp; try apply I; [apply pend_owned_step; apply I|apply tok_owned_step; apply I].
+  - constructor; simp; try apply I; [apply pend_owned_step; apply I|do 2 apply tok_owned_step; apply I].
+  - constructor; simp; try apply I. apply pend_owned_step; apply I.
+  - constructor; simp; try apply I. apply pend_owned_step; apply I.
+  - constructor; simp; try apply I; [apply pend_owned_step; apply I|apply tok_owned_step; apply I].
+  - constructor; simp; try apply I. apply lm_step_reach. apply I.
+  - constructor; simp; try apply I. apply lm_step_reach. apply I.
+  - constructor; simp; try apply I. apply lm_step_reach. apply I.
+  - constructor; simp; try apply I. destruct (ci_lm s I) as [tr Htr]. destruct (settle_is_run SETTLE_FUEL (lm s)) as [tr2 H2].
     exists (tr ++ tr2). unfold L.settle. rewrite H2, Htr. apply run_app.
-  - constructor; cbn; try apply I. apply oinv_step. apply I.
-  - constructor; cbn; try apply I. apply oinv_step. apply I.
-  - constructor; cbn; try apply I. apply oinv_step. apply I.
-  - constructor; cbn; apply I.
-  - constructor; cbn; apply I.
-  - constructor; cbn; apply I.
-  - constructor; cbn; apply I.
-  - constructor; cbn; apply I.
-  - constructor; cbn; try apply I. apply Forall_app. split; [apply I|]. constructor; [cbn; lia|constructor].
-  - constructor; cbn; try apply I. unfold R.del_pend. apply RP.filter_Forall. apply I.
+  - constructor; simp; try apply I. apply oinv_step. apply I.
+  - constructor; simp; try apply I. apply oinv_step. apply I.
+  - constructor; simp; try apply I. apply oinv_step. apply I.
+  - constructor; simp; apply I.
+  - constructor; simp; apply I.
+  - constructor; simp; apply I.
+  - constructor; simp; apply I.
+  - constructor; simp; apply I.
+  - constructor; simp; try apply I. apply Forall_app. split; [apply I|]. constructor; [cbn; lia|constructor].
+  - constructor; simp; try apply I. unfold R.del_pend. apply RP.filter_Forall. apply I.
   - (* AgeAll *)
-    constructor; cbn; try apply I.
+    constructor; simp; try apply I.
     + apply (DP.step_all_bounded (dd s) (D.Age ms)); [apply I|exact He].
     + apply (pend_owned_step c (rx s) (R.Age ms)). apply I.
     + pose proof (ci_pg s I) as HP. induction HP as [|p r [H1 H2] _ IH]; cbn [map]; constructor; [cbn; lia|exact IH].
   - (* TickAll *)
-    constructor; cbn; try apply I.
-    + apply (DP.step_all_bounded (dd s) D.Tick); [apply I|cbn; lia].
+    constructor; simp; try apply I.
+    + apply (DP.step_all_bounded (dd s) D.Tick); [apply I|unfold DP.age_ok; cbn [DP.age_of]; lia].
     + apply (pend_owned_step c (rx s) R.Tick). apply I.
-    + unfold pstep. cbn [R.step]. destruct (R.tick_all c (pg s)) as [l em] eqn:Et. cbn [fst R.pending].
+    + unfold pstep. cbn [R.step R.pending R.reqs]. destruct (R.tick_all c (pg s)) as [l em] eqn:Et. cbn [fst R.pending].
       apply Forall_forall. intros p' Hp'. pose proof (tick_all_in c (pg s) p') as HT. rewrite Et in HT.
       destruct (HT Hp') as (p & b & Hin & Hte). pose proof (ci_pg s I) as HP. rewrite Forall_forall in HP. destruct (HP p Hin) as [H1 H2].
       destruct (RP.tick_entry_keep c p p' b Hte) as [_ Hc].
@@ -786,6 +788,20 @@ Definition nticks (n : nat) (s : conn) : conn := Model.run c s (repeat TickAll n
 Definition closing (d : Z) (s : conn) : conn :=
   Model.step c (nticks (S (Z.to_nat (R.max_rt c))) (Model.step c s (AgeAll d))) BwExpire.
 
+Lemma tick_fields s :
+  let s' := Model.step c s TickAll in
+  tk s' = tk s /\ lm s' = lm s /\ ob s' = ob s /\ mx s' = mx s /\ live s' = live s /\
+  pg s' = fst (R.tick_all c (pg s)) /\
+  R.pending (rx s') = fst (R.tick_all c (R.pending (rx s))) /\
+  D.cache (dd s') = filter (fun '(_, en) => negb (D.expired en)) (D.cache (dd s)).
+Proof.
+  cbn [Model.step]. simp. unfold pstep. cbn [R.step R.pending R.reqs D.step fst D.cache].
+  destruct (R.tick_all c (pg s)); destruct (R.tick_all c (R.pending (rx s))). cbn [fst R.pending]. repeat split; reflexivity.
+Qed.
+
+Lemma nticks_S n s : nticks (S n) s = nticks n (Model.step c s TickAll).
+Proof. reflexivity. Qed.
+
 Lemma nticks_static n : forall s,
   tk (nticks n s) = tk s /\ lm (nticks n s) = lm s /\ ob (nticks n s) = ob s /\ mx (nticks n s) = mx s /\ live (nticks n s) = live s /\
   pg (nticks n s) = ticks c n (pg s) /\
@@ -794,14 +810,15 @@ Lemma nticks_static n : forall s,
 Proof.
   induction n as [|n IH]; intros s.
   - cbn. repeat split; auto. intros H; lia.
-  - unfold nticks in *. cbn [repeat Model.run fold_left]. specialize (IH (Model.step c s TickAll)).
-    destruct IH as (H1 & H2 & H3 & H4 & H5 & H6 & H7 & H8). cbn [Model.step] in *.
-    repeat split; try assumption.
-    + rewrite H6. cbn [ticks pg with_pg]. unfold pstep. cbn [R.step]. destruct (R.tick_all c (pg s)); reflexivity.
-    + intros Hp. apply H7. cbn. rewrite Hp. cbn. reflexivity.
+  - rewrite nticks_S. destruct (tick_fields s) as (F1 & F2 & F3 & F4 & F5 & F6 & F7 & F8).
+    set (s' := Model.step c s TickAll) in *.
+    destruct (IH s') as (H1 & H2 & H3 & H4 & H5 & H6 & H7 & H8).
+    repeat split; try congruence.
+    + rewrite H6, F6. reflexivity.
+    + intros Hp. apply H7. rewrite F7, Hp. reflexivity.
     + intros _ Hl. destruct n as [|n'].
-      * cbn. apply tick_clears. exact Hl.
-      * apply H8; [lia|]. cbn. rewrite (tick_clears _ Hl). constructor.
+      * change (nticks 0 s') with s'. rewrite F8. apply tick_clears. exact Hl.
+      * apply H8; [lia|]. rewrite F8. rewrite (tick_clears _ Hl). constructor.
 Qed.
 
 Lemma filter_none {A} (f : A -> bool) l : (forall x, f x = false) -> filter f l = [].
@@ -822,12 +839,12 @@ Proof.
   assert (Etk : ttab (tk s) = []).
   { destruct (ttab (tk s)) as [|[tok r] rest] eqn:E; [reflexivity|]. exfalso. apply (Htok r tok). apply (ci_tk s I). rewrite E. left. reflexivity. }
   assert (Epg : pg s2 = []).
-  { rewrite H6. apply pending_exhausts; [exact Hack|exact Hmr|]. unfold s1. cbn [Model.step pg with_pg]. unfold pstep. cbn [R.step fst R.pending].
-    pose proof (ci_pg s I) as HP. induction HP as [|p r [Ha Hb] _ IH]; cbn [map]; constructor; [cbn; lia|exact IH]. }
+  { rewrite H6. apply pending_exhausts; [exact Hack|exact Hmr|]. unfold s1. cbn [Model.step]. simp. unfold pstep. cbn [R.step fst R.pending R.reqs].
+    pose proof (ci_pg s I) as HP. induction HP as [|p r [Ha Hb] _ IH]; cbn [map]; constructor; [cbn [R.p_count R.p_elapsed]; lia|exact IH]. }
   assert (Erx : R.pending (rx s2) = []).
-  { apply H7. unfold s1. cbn. rewrite Hp0. reflexivity. }
+  { apply H7. unfold s1. cbn [Model.step]. simp. cbn [R.step fst R.pending]. rewrite Hp0. reflexivity. }
   assert (Edd : D.cache (dd s2) = []).
-  { apply H8; [lia|]. unfold s1. cbn [Model.step dd with_pg rstep with_rx with_dd].
+  { apply H8; [lia|]. unfold s1. cbn [Model.step]. simp.
     pose proof (d_quiet_step (dd s) (D.Age d) D.LIFETIME ltac:(cbn; exact Hd0) (ci_dd s I)) as Hb. cbn [DP.age_of] in Hb.
     eapply left_le_weaken; [|exact Hb]. lia. }
   destruct (ci_lm s I) as [tr Htr].
@@ -842,7 +859,8 @@ Proof.
   split; [|cbn; exact Elv].
   unfold sizes, n_tokens, n_mids, n_mutex, n_cache, n_limkeys, n_limqueued. cbn [Model.step tk rx pg mx dd bs br lm ob with_bs with_br].
   rewrite Etk2, Etk, Erx, Epg, Emx, (proj2 (ci_mx s I)), Edd, Els, Eob, Hh, Hq.
-  rewrite (filter_none _ _ (fun k => ltac:(rewrite Ht; reflexivity))).
+  assert (Hf : filter (fun k => match L.tab (lm s) k with Some _ => true | None => false end) (lim_keys (lm s)) = []) by (apply filter_none; intros k; rewrite Ht; reflexivity).
+  rewrite Hf.
   assert (Hfold : forall l a, fold_left (fun a0 k => a0 + match L.tab (lm s) k with Some (_, q) => blen q | None => 0 end) l a = a).
   { induction l as [|k r IHl]; intros a; cbn [fold_left]; [reflexivity|]. rewrite Ht. rewrite IHl. lia. }
   rewrite Hfold. unfold blen at 1 2 3 4 5 6 7 8 9 10. cbn [length Z.of_nat Z.add].
